@@ -861,6 +861,13 @@ func ruleR15(c *Ctx, dv *dev, rule string) {
 				note(k, "a path from the end of the input loop to return does not iterate "+spec.tracker)
 				continue
 			}
+			// the releases are not kept waiting for the helper goroutines: those make calls without a deadline (the OpenRGB
+			// client), and a join that never returns in front of the clean-up leaves every held note sounding
+			for i := last + 1; i < ri; i++ {
+				if e := p.Effects[i]; e.Kind == "call" && e.Callee != nil && e.Callee.Name() == "Wait" && pkgPathOf(e.Callee) == "sync" {
+					note("device.ProcessEvents/cleanup-before-join", "the disconnect clean-up runs only after wg.Wait(): the helper goroutines (LED feedback: third-party calls without deadline) need not end, the notes still held are then never released")
+				}
+			}
 			// iterations taken on this path: each 'next' with ok==true must be followed by the release call with that key
 			bad := ""
 			for i := ri + 1; i < len(p.Effects); i++ {
